@@ -19,6 +19,7 @@ mod c10;
 mod c11;
 mod c12;
 mod c13;
+mod c15;
 mod c16;
 mod c17;
 mod c18;
@@ -54,6 +55,7 @@ fn props() -> Vec<Prop> {
         Prop { id: "C11", run: c11::run, replay: c11::replay, meta: c11::meta, workers: (4, 16), also_release: true },
         Prop { id: "C12", run: c12::run, replay: c12::replay, meta: c12::meta, workers: (1, 16), also_release: false },
         Prop { id: "C13", run: c13::run, replay: c13::replay, meta: c13::meta, workers: (1, 16), also_release: false },
+        Prop { id: "C15", run: c15::run, replay: c15::replay, meta: c15::meta, workers: (8, 16), also_release: false },
         Prop { id: "C16", run: c16::run, replay: c16::replay, meta: c16::meta, workers: (8, 16), also_release: false },
         Prop { id: "C17", run: c17::run, replay: c17::replay, meta: c17::meta, workers: (4, 16), also_release: false },
         Prop { id: "C18", run: c18::run, replay: c18::replay, meta: c18::meta, workers: (8, 16), also_release: false },
@@ -153,6 +155,7 @@ fn child(name: &str, args: &[String]) -> i32 {
     match name {
         "c02" => child::child_main::<c02::History>(args, c02::child_check),
         "c18" => c18::child_main(args),
+        "c15smoke" => child::child_main::<c15::Smoke>(args, c15::smoke_child),
         "c16" => child::child_main::<engine::ReplayFile>(args, c16::child_replay),
         _ => {
             eprintln!("unknown child {}", name);
